@@ -193,6 +193,11 @@ Definition the_flags : oflags :=
 Definition write (cwd : path) (fs : fsys) (dir : bytes) (a : archive) : fsys * wres :=
   write_gen the_guard the_flags cwd fs dir (files a).
 
+(* the permission bits of an object Write creates: the perm argument of os.MkdirAll /
+   os.OpenFile with the bits of the process's umask cleared (mkdir(2), open(2)) *)
+Definition created_mode (umask : N) (n : node) : N :=
+  N.ldiff (match n with Dir => write_dir_perm | File _ => write_file_perm end) umask.
+
 (* ------------------------------------------------------------------ cmd/txtar-x *)
 
 (* txtar-x -C dir: Parse, then Write.  (The "unquote NAME" lines that txtar-c -quote puts
@@ -242,6 +247,16 @@ Fixpoint insert_file (x : path * bytes) (l : tree) : tree :=
   end.
 
 Definition walk_order (t : tree) : tree := fold_right insert_file [] t.
+
+(* How txtar-c names an entry.  filepath.Walk(dir) hands the walk function
+   Join(...Join(Join(dir, e1), e2)..., en) for the file with elements e1..en below dir
+   (dir = Clean of the command-line argument), and txtar-c stores
+   strings.TrimPrefix(path, dir+"/").  [savedir] below uses e1/.../en directly;
+   NameFacts.v proves that this is what the code computes for every dir except "/". *)
+Definition walk_path (d : bytes) (p : path) : bytes := fold_left join p d.
+Definition trim_prefix (pre s : bytes) : bytes :=
+  if has_prefix pre s then skipn (length pre) s else s.
+Definition entry_name (d : bytes) (p : path) : bytes := trim_prefix (d ++ [SEP]) (walk_path d p).
 
 Record sflags := { f_quote : bool; f_all : bool }.
 
